@@ -263,6 +263,59 @@ PktPKESK_ECDH(keyid, epk, rkw) == Packet(1, BodyPKESK(keyid, 18, MPI(epk) \o <<L
 (* v4 signature: hashed part (version .. hashed subpackets) as prepared, empty unhashed area, left 16 bits, MPIs *)
 PktSig(hashed, left, mpis) == Packet(2, hashed \o <<0, 0>> \o left \o Flat([i \in 1..Len(mpis) |-> MPI(mpis[i])]))
 SigHashedArea(type, pkalgo, hashalgo, subpkts) == <<4, type, pkalgo, hashalgo>> \o BE(Len(subpkts), 2) \o subpkts
+(* 5.2.3.1 signature subpacket lengths: like the new-format lengths, but the two-octet form has first octet *)
+(* 192..254 (lengths up to 16319) and there is no partial form                                                *)
+SubLenDecode(os) ==
+  IF Len(os) < 1 THEN NoLen
+  ELSE LET o == os[1] IN
+    IF o < 192 THEN [hl |-> 1, len |-> <<0, o>>, part |-> FALSE]
+    ELSE IF o < 255 THEN (IF Len(os) < 2 THEN NoLen
+                          ELSE [hl |-> 2, len |-> <<0, (o - 192) * 256 + os[2] + 192>>, part |-> FALSE])
+    ELSE (IF Len(os) < 5 THEN NoLen
+          ELSE [hl |-> 5, len |-> <<os[2] * 256 + os[3], os[4] * 256 + os[5]>>, part |-> FALSE])
+(* a subpacket length n written in the one-, two- or five-octet form (where that form can express n) *)
+SubLenForm(form, n) == CASE form = 1 -> <<n>>
+                         [] form = 2 -> <<((n - 192) \div 256) + 192, (n - 192) % 256>>
+                         [] form = 5 -> <<255>> \o BE(n, 4)
+SubPktForm(form, type, critical, data) ==
+  SubLenForm(form, Len(data) + 1) \o <<type + (IF critical THEN 128 ELSE 0)>> \o data
+(* a subpacket area cut into its subpackets *)
+RECURSIVE ParseSubs(_)
+ParseSubs(os) ==
+  IF os = <<>> THEN [ok |-> TRUE, subs |-> <<>>]
+  ELSE LET d == SubLenDecode(os)  n == d.len[2] IN
+       IF d.hl = 0 \/ d.len[1] # 0 \/ n < 1 \/ Len(os) < d.hl + n THEN [ok |-> FALSE, subs |-> <<>>]
+       ELSE LET t == os[d.hl + 1]
+                rest == ParseSubs(Drop(os, d.hl + n))
+            IN [ok |-> rest.ok,
+                subs |-> <<[type |-> t % 128, critical |-> t >= 128, data |-> SubSeq(os, d.hl + 2, d.hl + n)]>> \o rest.subs]
+(* 5.2.3.x: body sizes of the subpacket types that have a fixed layout *)
+SubBodyOk(sp) ==
+  LET n == Len(sp.data) IN
+  CASE sp.type \in {2, 3, 9} -> n = 4
+    [] sp.type \in {4, 7, 25} -> n = 1 /\ sp.data[1] \in {0, 1}
+    [] sp.type = 5 -> n = 2
+    [] sp.type = 12 -> n = 22 /\ sp.data[1] \in {128, 192}          \* class octet: 0x80 must be set, 0x40 = sensitive
+    [] sp.type = 16 -> n = 8
+    [] sp.type = 20 -> n >= 8 /\ n = 8 + (sp.data[5] * 256 + sp.data[6]) + (sp.data[7] * 256 + sp.data[8])
+    [] sp.type = 29 -> n >= 1
+    [] sp.type = 31 -> n >= 2
+    [] sp.type = 33 -> n >= 1 /\ ((sp.data[1] = 4 /\ n = 21) \/ (sp.data[1] = 5 /\ n = 33))
+    [] OTHER -> TRUE
+(* the part of a v4/v5 signature that is prepared for hashing: version, type, algorithms, count, hashed subpackets *)
+ParseHashed(os) ==
+  IF Len(os) < 6 THEN [ok |-> FALSE, v |-> 0, type |-> 0, pk |-> 0, hash |-> 0, subs |-> <<>>]
+  ELSE LET cnt == os[5] * 256 + os[6]
+           ps == ParseSubs(Drop(os, 6))
+       IN [ok |-> Len(os) = 6 + cnt /\ ps.ok, v |-> os[1], type |-> os[2], pk |-> os[3], hash |-> os[4], subs |-> ps.subs]
+SubIdx(subs, t) == {k \in 1..Len(subs) : subs[k].type = t}
+HasOne(subs, t, data) == Cardinality(SubIdx(subs, t)) = 1 /\ \A k \in SubIdx(subs, t) : subs[k].data = data
+HasNone(subs, t) == SubIdx(subs, t) = {}
+(* a complete v4 signature packet body *)
+BodySigV4(type, pkalgo, hashalgo, hashedsubs, unhashedsubs, left, mpis) ==
+  <<4, type, pkalgo, hashalgo>> \o BE(Len(hashedsubs), 2) \o hashedsubs \o BE(Len(unhashedsubs), 2) \o unhashedsubs
+  \o left \o Flat([i \in 1..Len(mpis) |-> MPI(mpis[i])])
+
 (* public key / subkey bodies *)
 BodyPubV4(time, algo, material) == <<4>> \o BE32(time[1], time[2]) \o <<algo>> \o material
 BodyPubV5(time, algo, material) == <<5>> \o BE32(time[1], time[2]) \o <<algo>> \o BE(Len(material), 4) \o material
